@@ -78,6 +78,7 @@ def run(ctx):
     from .. import fetchlatch
     fetchlatch.obligations(ctx)
     fetchlatch.stop_edge_advances(ctx)      # STOP is a defined opcode: it completes (after continue) like any other
+    fetchlatch.continue_resumes(ctx)
 
     # ---- reset state ---------------------------------------------------
     from .. import absint, step
